@@ -176,7 +176,29 @@ def number_and_wrap_rules(ctx):
                "digits); the code computes " + (ast.unparse(v)[:80] if v is not None else "?"), cl.lineno)
 
 
+FCONV = "sequence/io/fasta/convert.py"
+
+
+def rna_spelling_rules(ctx):
+    """writing a sequence 'as RNA' exchanges T for U - in nucleotide sequences only: every `.replace("T", "U")` of the FASTA
+    converter stands under the fact isinstance(<the sequence>, NucleotideSequence) (a protein keeps its threonines)"""
+    from ..facts import facts_at
+    s = ctx.src(FCONV)
+    n = 0
+    for q, f in s.funcs.items():
+        for c in ast.walk(f):
+            if isinstance(c, ast.Call) and isinstance(c.func, ast.Attribute) and c.func.attr == "replace" and len(c.args) == 2 \
+                    and all(isinstance(a, ast.Constant) for a in c.args) and (c.args[0].value, c.args[1].value) == ("T", "U"):
+                n += 1
+                fs = facts_at(f, c)
+                ok = any(isinstance(x, tuple) and x[:2] == ("call", "isinstance") and "NucleotideSequence" in repr(x) for x in fs)
+                ctx.ob("R2.rna-spelling-nucleotides-only", FCONV, q, "replace('T', 'U') under isinstance(.., NucleotideSequence)", ok,
+                       "T is exchanged for U in whatever sequence is written: a protein sequence loses its threonines", c.lineno)
+    ctx.floor("R2.rna-spelling-nucleotides-only", n, 1)
+
+
 def run(ctx):
+    rna_spelling_rules(ctx)
     number_and_wrap_rules(ctx)
     fasta_append_rules(ctx, "R1")
     # ---------------- R1 coupling -----------------------------------------
